@@ -1,7 +1,7 @@
 #!/venv/bin/python
 """Run every check against every seeded change and record which checks report it.
 
-  tools/seed_matrix.py [seed dir ...]        (default: /verif/seeded/*)
+  tools/seed_matrix.py [seed dir ...]        (default: /verif/seeded/*; SM_MERGE=1 merges the named rows into MATRIX.json)
 
 Each seeded change is applied to its own scratch worktree of /repo under /tmp/sm (removed afterwards);
 the checks read that tree through SA_REPO and write under SA_OUT, so /repo and /verif/evidence are
@@ -16,7 +16,7 @@ import subprocess
 import sys
 
 VERIF = os.path.dirname(os.path.dirname(os.path.abspath(__file__)))
-SCRATCH = '/tmp/sm'
+SCRATCH = os.environ.get('SM_SCRATCH', '/tmp/sm')
 PROPS = ['C%02d' % i for i in range(1, 19)]
 
 
@@ -64,7 +64,7 @@ def main(argv):
     seeds = [s for s in seeds if os.path.exists(os.path.join(s, 'patch.diff'))]
     os.makedirs(SCRATCH, exist_ok=True)
     results = []
-    with concurrent.futures.ThreadPoolExecutor(max_workers=6) as ex:
+    with concurrent.futures.ThreadPoolExecutor(max_workers=int(os.environ.get('SM_WORKERS', '6'))) as ex:
         for res in ex.map(run_seed, seeds):
             results.append(res)
             own = res['seed'][:3]
@@ -75,8 +75,15 @@ def main(argv):
                 ('  ' + res.get('error', '')) if res.get('error') else ''), flush=True)
     sh('git -C /repo worktree prune')
     shutil.rmtree(SCRATCH, ignore_errors=True)
-    if not argv:
-        with open(os.path.join(VERIF, 'seeded', 'MATRIX.json'), 'w') as fh:
+    mpath = os.path.join(VERIF, 'seeded', 'MATRIX.json')
+    if argv and os.environ.get('SM_MERGE'):
+        # results for the named changes replace their rows in the existing table
+        with open(mpath) as fh:
+            old = json.load(fh)
+        names = {r['seed'] for r in results}
+        results = [r for r in old['results'] if r['seed'] not in names] + results
+    if not argv or os.environ.get('SM_MERGE'):
+        with open(mpath, 'w') as fh:
             json.dump({'head': sh('git -C /repo rev-parse --short HEAD').stdout.strip(), 'results': results}, fh, indent=1, sort_keys=True)
     return 0
 
